@@ -38,6 +38,25 @@ class SendUdp(VU):
     def setup(self, rt, interp):
         self.rt = rt
         ctx = interp.ctx
+        # packet[a:b] of the caller's (symbolic) packet: an uninterpreted function of (packet, a, b) - it IS the packet only for
+        # the full slice; `packet[:n]` differs from the packet for every packet longer than n
+        import z3 as _z3
+        from pyvc.core import Bytes as _Bytes, Int as _Int
+        f_slice = _z3.Function("bytes_slice", _Bytes, _Int, _Int, _Bytes)
+
+        def sl(rt_, i, c, lo, hi, step):
+            if lo is None and hi is None and step is None:
+                return c
+            if step is not None:
+                raise Undecided("strided slice of the packet")
+            n = rt.blen(c.e)
+            a = zint(lo) if lo is not None else _z3.IntVal(0)
+            b = zint(hi) if hi is not None else n
+            r = f_slice(c.e, a, b)
+            i.ctx.assume(lift_bool(_z3.Implies(_z3.And(a == 0, b >= n), r == c.e)))
+            i.ctx.assume(lift_bool(_z3.Implies(_z3.And(a == 0, b >= 0, b < n), rt.blen(r) == b)))
+            return SBytes(r)
+        rt.getslice_hooks["SBytes"] = sl
         self.transports = []
         self.protocols = []
         self.sent_ok = True              # every datagram so far is the caller's packet to the endpoint
